@@ -131,12 +131,13 @@ inductive Tok where
   | any        -- `?`
   | star       -- `*`
   | within (negated : Bool) (cs : List CharSpec)   -- `[..]` (`AnyWithin`) / `[!..]` (`AnyExcept`)
+  | recStar    -- `**` as a whole path component (`AnyRecursiveSequence`)
   deriving Repr, DecidableEq, Inhabited
 
 inductive TokRes where
   | ok (ts : List Tok)
   | invalid                 -- `Pattern::new` fails (`***`, an unclosed or empty `[`)
-  | unsupported             -- `**`: outside the modelled fragment
+  | unsupported             -- (no longer produced: `**` is a token; the directory walk of the real file system defers on it)
   deriving Repr, DecidableEq, Inhabited
 
 /-- `parse_char_specifiers`: `a-b` (three characters) is a range, anything else a single character. -/
@@ -167,25 +168,37 @@ def classTok (rest : List Char) : Option (Tok × List Char) :=
       | none => none
     else none
 
-/-- `Pattern::new` on the fragment (`fuel` ≥ length of the text: a class consumes several characters at once). -/
-def tokenizeAux : Nat → List Char → TokRes
-  | _, [] => .ok []
-  | 0, _ => .invalid
-  | _, '*' :: '*' :: '*' :: _ => .invalid
-  | _, '*' :: '*' :: _ => .unsupported
-  | fuel + 1, '[' :: rest =>
+/-- "collapse consecutive AnyRecursiveSequence to a single one" - as written: only when MORE than one token precedes -/
+def pushRec (acc : List Tok) : List Tok :=
+  if acc.length > 1 && acc.head? == some Tok.recStar then acc else Tok.recStar :: acc
+
+/-- `Pattern::new` (`fuel` ≥ length of the text; `prev`: the character in front of the current position; `acc`: the tokens so
+far, last first).  `**` must be a whole path component (`a/**/b`, `**/b`, `a/**`), three or more stars are refused. -/
+def tokenizeAux : Nat → Option Char → List Tok → List Char → TokRes
+  | _, _, acc, [] => .ok acc.reverse
+  | 0, _, _, _ => .invalid
+  | fuel + 1, prev, acc, '*' :: rest =>
+    let more := (rest.takeWhile (· == '*')).length
+    let after := rest.dropWhile (· == '*')
+    if more ≥ 2 then .invalid
+    else if more = 1 then
+      if prev.isNone || prev == some '/' then
+        match after with
+        | '/' :: after' => tokenizeAux fuel (some '/') (pushRec acc) after'
+        | [] => .ok (pushRec acc).reverse
+        | _ => .invalid
+      else .invalid
+    else tokenizeAux fuel (some '*') (Tok.star :: acc) rest
+  | fuel + 1, _, acc, '[' :: rest =>
     match classTok rest with
     | none => .invalid
-    | some (t, rem) =>
-      match tokenizeAux fuel rem with
-      | .ok ts => .ok (t :: ts)
-      | r => r
-  | fuel + 1, c :: rest =>
-    match tokenizeAux fuel rest with
-    | .ok ts => .ok ((if c = '?' then Tok.any else if c = '*' then Tok.star else Tok.lit c) :: ts)
-    | r => r
+    | some (t, rem) => tokenizeAux fuel (some ']') (t :: acc) rem
+  | fuel + 1, _, acc, c :: rest =>
+    tokenizeAux fuel (some c) ((if c = '?' then Tok.any else Tok.lit c) :: acc) rest
 
-def tokenize (cs : List Char) : TokRes := tokenizeAux (cs.length + 1) cs
+def tokenize (cs : List Char) : TokRes := tokenizeAux (cs.length + 1) none [] cs
+
+def hasRec (ts : List Tok) : Bool := ts.any (· == Tok.recStar)
 
 def asciiLower (c : Char) : Char := if 'A' ≤ c ∧ c ≤ 'Z' then Char.ofNat (c.toNat + 32) else c
 
@@ -213,6 +226,14 @@ def starLoop (o : GlobOpts) (k : List Char → Bool → Bool) : List Char → Bo
       (!(sep && o.literalLeadingDot && x == '.') && !(o.literalSeparator && x == '/') &&
         starLoop o k xs (x == '/'))
 
+/-- the same loop for `**`: the rest of the pattern is tried only right after a separator; a component that begins with a dot
+ends the search -/
+def recLoop (o : GlobOpts) (k : List Char → Bool → Bool) : List Char → Bool → Bool
+  | [], sep => k [] sep
+  | x :: xs, sep =>
+    !(sep && o.literalLeadingDot && x == '.') &&
+      (if x == '/' then (k xs true || recLoop o k xs true) else recLoop o k xs false)
+
 /-- `Pattern::matches_from`: `sep` = `follows_separator`. -/
 def matchToks (o : GlobOpts) : List Tok → List Char → Bool → Bool
   | [], xs, _ => xs.isEmpty
@@ -226,6 +247,7 @@ def matchToks (o : GlobOpts) : List Tok → List Char → Bool → Bool
       matchToks o ts xs (x == '/')
   | .within _ _ :: _, [], _ => false
   | .star :: ts, xs, sep => starLoop o (matchToks o ts) xs sep
+  | .recStar :: ts, xs, sep => matchToks o ts xs sep || recLoop o (matchToks o ts) xs sep
 
 /-- `Pattern::matches_with(str, options)`. -/
 def globMatches (o : GlobOpts) (ts : List Tok) (s : String) : Bool := matchToks o ts s.toList true
@@ -467,8 +489,9 @@ def prodGlob (o : GlobOpts) (t : Tree) (pat : String) : Outcome LoadErr (List Pa
   match tokenize pat.toList with
   | .invalid => .err .invalidIncludeGlob
   | .unsupported => t.extGlob pat
-  | .ok _ =>
-    if pat.startsWith "/" then
+  | .ok ts =>
+    if hasRec ts then t.extGlob pat      -- the crate's recursive directory walk is not modelled: recorded answer
+    else if pat.startsWith "/" then
       -- `pattern[root_len..].split_terminator(is_separator)`: interior empty components are kept
       let comps := dropTrailingEmpty ((pat.drop 1).toString.splitOn "/")
       match tokenizeAll comps with
